@@ -263,7 +263,33 @@ CLAIMED["C18"] = dict(
        "only; the deprecated `expand` is not exercised.",
   ref="DESIGN.md section 5 (C18)", engine="tlc-cliconfig")
 
+CLAIMED["C09"] = dict(
+  category="model_checking",
+  technique="TLA+ exact-rational reference of trilinear sampling on the "
+            "staggered grid and of face interpolation o curl (PointOps.tla, "
+            "reusing Operator.tla's curl) + TLC validation of the real "
+            "receiver functional and point-source vectors extracted entry by "
+            "entry",
+  text="For integer grids and points of the half-integer lattice (nodes, "
+       "centres, faces, outermost cells; ~670 quick / ~14000 thorough "
+       "point-component-kind instances) the linear functional of the real "
+       "get_receiver(method='linear') (electric, and magnetic through "
+       "get_magnetic_field) and the vectors of the real _point_vector / "
+       "_point_vector_magnetic are extracted and TLC checks: functional = "
+       "source vector = reference weights, entry by entry, and NaN exactly "
+       "outside the second to second-last cell.  PARTIAL: arbitrary "
+       "orientations and reciprocity of solved responses are floating-point "
+       "observations / consequences (C02 symmetry, C01 tolerance), not "
+       "decided by the specification.",
+  note="Trusted: TLC; rational recognition at 1e-14; mu_r = 1 in the "
+       "magnetic case; axis-aligned orientations in the TLC-checked part.",
+  ref="DESIGN.md section 5 (C09)", engine="tlc-pointops")
+
 ENGINES = [
+ dict(name="tlc-pointops", path="spec/PointOps.tla",
+      serves_properties=["C09"],
+      kind_free_text="TLA+ exact-arithmetic reference + TLC validation of "
+                     "extracted code vectors"),
  dict(name="tlc-cliconfig", path="spec/CliConfig.tla",
       serves_properties=["C18"],
       kind_free_text="TLA+ spec + TLC exhaustive + TLC trace validation"),
